@@ -107,60 +107,22 @@ def involutive_statement : Prop :=
   ∀ o : Op, reversible o = true →
     ∃ r rr, o.reverse = some r ∧ r.reverse = some rr ∧ view rr = view o
 
-/-- F11: `AlterColumnOp('t','c', modify_name='d').reverse().reverse()` renames nothing -/
-def renameWitness : Op :=
-  .alterColumn { table := "t", column := "c", schema := none, existingType := none, existingNullable := none,
-                 existingDefault := .unset, existingComment := none, modifyType := none, modifyNullable := none,
-                 modifyDefault := .unset, modifyComment := .unset, modifyName := some "d", kw := [] }
-
-theorem involutive_counterexample : ¬ involutive_statement := by
-  intro h
-  obtain ⟨r, rr, h1, h2, h3⟩ := h renameWitness (by simp [renameWitness, reversible, Alter.complete])
-  simp [renameWitness, Op.reverse, Alter.reverse] at h1
-  subst h1
-  simp [Op.reverse, Alter.reverse] at h2
-  subst h2
-  simp [view, renameWitness] at h3
-
-/-- F13: `CreateIndexOp('ix','t',['a'], if_not_exists=True).reverse().reverse()` has lost the flag;
-so the full statement stays false even without renames -/
+/-- F13: `CreateIndexOp('ix','t',['a'], if_not_exists=True).reverse().reverse()` has lost the flag -/
 def flagWitness : Op := .createIndex ⟨some "ix", "t", none, ["a"], false, []⟩ (some true)
 
-theorem involutive_flags_counterexample :
-    ¬ (∀ o : Op, reversible o = true → (∀ a, o = .alterColumn a → a.modifyName = none) →
-      ∃ r rr, o.reverse = some r ∧ r.reverse = some rr ∧ view rr = view o) := by
+theorem involutive_flags_counterexample : ¬ involutive_statement := by
   intro h
-  obtain ⟨r, rr, h1, h2, h3⟩ := h flagWitness (by simp [flagWitness, reversible]) (by simp [flagWitness])
+  obtain ⟨r, rr, h1, h2, h3⟩ := h flagWitness (by simp [flagWitness, reversible])
   simp [flagWitness, Op.reverse, dropIndexOf] at h1
   subst h1
   simp [Op.reverse, dropIndexToIndex] at h2
   subst h2
   simp [view, flagWitness] at h3
 
-/-- F14: `CreateUniqueConstraintOp('uq','t',['a'], deferrable=False).reverse().reverse()` has lost
-`deferrable=False` (NOT DEFERRABLE) -/
-def deferrableWitness : Op :=
-  .addConstraint ⟨.unique, some "uq", "t", none, "a", some false, none⟩
-
-theorem involutive_deferrable_counterexample :
-    ¬ (∃ r rr, deferrableWitness.reverse = some r ∧ r.reverse = some rr ∧ view rr = view deferrableWitness) := by
-  intro ⟨r, rr, h1, h2, h3⟩
-  simp [deferrableWitness, Op.reverse, ConsDef.roundTrip] at h1
-  subst h1
-  simp [Op.reverse, ConsDef.roundTrip] at h2
-  subst h2
-  simp [view, deferrableWitness] at h3
-
 theorem roundTrip_idem (c : ConsDef) : c.roundTrip.roundTrip = c.roundTrip := by
   cases c with
   | mk kind name table schema body deferrable initially =>
     cases kind <;> simp [ConsDef.roundTrip]
-    all_goals
-      constructor
-      · cases deferrable with
-        | none => simp
-        | some b => cases b <;> simp
-      · by_cases h : initially = some "" <;> simp [h]
 
 theorem roundTrip_fields (c : ConsDef) :
     c.roundTrip.name = c.name ∧ c.roundTrip.table = c.table ∧ c.roundTrip.schema = c.schema ∧
@@ -169,13 +131,10 @@ theorem roundTrip_fields (c : ConsDef) :
   | mk kind name table schema body deferrable initially =>
     cases kind <;> simp [ConsDef.roundTrip]
 
-theorem alter_rr (a : Alter) (hc : Alter.complete a = true) (hn : a.modifyName = none) :
-    a.reverse.reverse = a := by
+theorem alter_rr (a : Alter) (hc : Alter.complete a = true) : a.reverse.reverse = a := by
   rcases a with ⟨t, c, s, eT, eN, eD, eC, mT, mN, mD, mC, mName, kw⟩
-  simp at hn
-  subst hn
-  cases mT <;> cases mN <;> cases mD <;> cases mC <;> cases eC <;> cases eT <;> cases eN <;> cases eD <;>
-    simp_all [Alter.complete, Alter.reverse]
+  cases mName <;> cases mT <;> cases mN <;> cases mD <;> cases mC <;> cases eC <;> cases eT <;>
+    cases eN <;> cases eD <;> simp_all [Alter.complete, Alter.reverse]
 
 theorem reverseEach_append (a b : List Op) :
     reverseEach (a ++ b) =
@@ -274,9 +233,8 @@ theorem involutive_op (o : Op) (hr : reversible o = true) (hc : clean o = true) 
       refine ⟨_, _, rfl, rfl, ?_⟩
       simp [view, roundTrip_idem, hf, hr]
   | alterColumn a =>
-    simp [clean] at hc
     simp [reversible] at hr
-    exact ⟨_, _, rfl, rfl, by simp [view, alter_rr a hr hc]⟩
+    exact ⟨_, _, rfl, rfl, by simp [view, alter_rr a hr]⟩
   | createTableComment t s c e =>
     simp [clean] at hc
     cases c with
@@ -311,19 +269,19 @@ end
 
 /-- **Reversing a reversible operation twice gives back the operation** (equal on every field
 `invoke` reads), for every op tree, provided the op carries none of the attributes `reverse()` is
-known to lose (`clean`: no `modify_name` - F11; no `if_exists`/`if_not_exists`/drop-column `kw` -
-F13; `deferrable`/`initially` survive `from_constraint` - F14). -/
+known to lose (`clean`: no `if_exists`/`if_not_exists`/add- or drop-column `kw` - F13). Renames
+and explicit `deferrable=False` / `initially` are covered. -/
 theorem involutive_partial (o : Op) (hr : reversible o = true) (hc : clean o = true) :
     ∃ r rr, o.reverse = some r ∧ r.reverse = some rr ∧ view rr = view o :=
   involutive_op o hr hc
 
-/-- non-vacuity: a reversible, clean alter-column with every attribute modified -/
+/-- non-vacuity: a reversible, clean alter-column with every attribute modified, and a rename -/
 def fullAlter : Op :=
   .alterColumn {
     table := "t", column := "c", schema := some "s", existingType := some "INTEGER",
     existingNullable := some true, existingDefault := Tri.null, existingComment := none,
     modifyType := some "VARCHAR(10)", modifyNullable := some false, modifyDefault := Tri.val "0",
-    modifyComment := Tri.val "x", modifyName := none, kw := [] }
+    modifyComment := Tri.val "x", modifyName := some "d", kw := [] }
 
 example : reversible fullAlter = true ∧ clean fullAlter = true := by
   simp [fullAlter, reversible, clean, Alter.complete]
@@ -369,12 +327,21 @@ theorem undo_onTable {db : DB} {k : TKey} {t t' : TState} {g : TState → Option
     onTable (upd db k (some t')) k g = some db := by
   rw [onTable_some (upd_same db k (some t')) hg, upd_upd, upd_eq_self db k (some t) hk]
 
+theorem rename_cols_back (f : String → Option Col) (c n : String) (X col : Col) (hne : c ≠ n)
+    (hc : f c = some col) (hn : f n = none) :
+    upd (upd (upd (upd f c none) n (some X)) n none) c (some col) = f := by
+  funext x
+  by_cases h1 : x = c
+  · subst h1; simp [upd, hc]
+  · by_cases h2 : x = n
+    · subst h2; simp [upd, h1, hn]
+    · simp [upd, h1, h2]
+
 /-- **Each reversed op undoes the op** on the abstract schema semantics: for every leaf op kind,
 every field value and every database state on which the op is applicable and whose stored
 `_reverse` / `existing_*` describe that state, applying `reverse o` after `o` restores the state
-exactly.  Renames are excluded (F11: see `undo_counterexample`). -/
+exactly.  Renames included: the reverse of a rename operates on the new name and renames back. -/
 theorem undo_leaf_partial (o : Op) (db db' : DB)
-    (hn : ∀ a, o = .alterColumn a → a.modifyName = none)
     (happ : apply o db = some db') (hacc : accurate o db) :
     ∃ r, o.reverse = some r ∧ apply r db' = some db := by
   cases o with
@@ -468,27 +435,52 @@ theorem undo_leaf_partial (o : Op) (db db' : DB)
     apply undo_onTable hk
     simp [upd_same, upd_upd, upd_eq_self T.cons _ _ hc]
   | alterColumn a =>
-    have hname := hn a rfl
-    obtain ⟨T, col, hk, hcol, hT, hN, hD, hC⟩ := hacc
+    obtain ⟨T, col, hk, hcol, hT, hN, hD, hC, hNm⟩ := hacc
     refine ⟨_, rfl, ?_⟩
     obtain ⟨T0, T', hk0, hf, rfl⟩ := onTable_eq_some happ
     rw [hk] at hk0; cases hk0
-    simp [hcol, hname] at hf
-    subst hf
-    have h1 : a.reverse.table = a.table := rfl
-    have h2 : a.reverse.schema = a.schema := rfl
-    have h3 : a.reverse.column = a.column := rfl
-    have h4 : a.reverse.modifyName = none := rfl
-    simp only [apply, h1, h2, h3]
-    apply undo_onTable hk
-    simp only [upd_same, h4, upd_upd]
     have hback : alterCol a.reverse (alterCol a col) = col := by
       rcases a with ⟨t, c, s, eT, eN, eD, eC, mT, mN, mD, mC, mName, kw⟩
       rcases col with ⟨cn, cty, cnull, cdef, ccom⟩
       simp at hT hN hD hC
       cases mT <;> cases mN <;> cases mD <;> cases mC <;> cases cdef <;> cases ccom <;>
         simp_all [alterCol, Alter.reverse, triToOpt]
-    rw [hback, upd_eq_self T.cols _ _ hcol]
+    have h1 : a.reverse.table = a.table := rfl
+    have h2 : a.reverse.schema = a.schema := rfl
+    cases hmn : a.modifyName with
+    | none =>
+      simp [hcol, hmn] at hf
+      subst hf
+      have h3 : a.reverse.column = a.column := by simp [Alter.reverse, hmn]
+      have h4 : a.reverse.modifyName = none := by simp [Alter.reverse, hmn]
+      simp only [apply, h1, h2, h3]
+      apply undo_onTable hk
+      simp only [upd_same, h4, upd_upd]
+      rw [hback, upd_eq_self T.cols _ _ hcol]
+    | some n =>
+      simp only [hcol, hmn] at hf
+      split at hf
+      · simp at hf
+      · rename_i hfree
+        simp at hf hfree
+        subst hf
+        have hname : col.name = a.column := hNm (by simp [hmn])
+        have hne : a.column ≠ n := by
+          intro h; rw [h] at hcol; rw [hcol] at hfree; simp at hfree
+        have h3 : a.reverse.column = n := by simp [Alter.reverse, hmn]
+        have h4 : a.reverse.modifyName = some a.column := by simp [Alter.reverse, hmn]
+        simp only [apply, h1, h2, h3]
+        apply undo_onTable hk
+        have hc' : upd (upd T.cols a.column none) n (some { alterCol a col with name := n }) a.column = none := by
+          simp [upd, hne]
+        simp only [upd_same, h4, hc', Option.isSome_none, Bool.false_eq_true, if_false]
+        have hcolb : ({ alterCol a.reverse { alterCol a col with name := n } with name := a.column } : Col) = col := by
+          have : alterCol a.reverse { alterCol a col with name := n } = { alterCol a.reverse (alterCol a col) with name := n } := by
+            simp [alterCol]
+          rw [this, hback]
+          cases col
+          simp_all
+        rw [hcolb, rename_cols_back T.cols a.column n _ col hne hcol hfree]
   | createTableComment t s c e =>
     obtain ⟨T, hk, hcm⟩ := hacc
     obtain ⟨T0, T', hk0, hf, rfl⟩ := onTable_eq_some happ
@@ -517,30 +509,23 @@ theorem undo_leaf_partial (o : Op) (db db' : DB)
     apply undo_onTable hk
     cases T; simp_all
 
-/-- F11 also breaks the undo: the reverse of a rename does not rename back, so it is not even
-applicable to the renamed table -/
+/-- non-vacuity: a rename on a concrete database is applicable and accurate, so the theorem
+applies to it (and its reverse renames back) -/
+def renameWitness : Op :=
+  .alterColumn { table := "t", column := "c", schema := none, existingType := none, existingNullable := none,
+                 existingDefault := .unset, existingComment := none, modifyType := none, modifyNullable := none,
+                 modifyDefault := .unset, modifyComment := .unset, modifyName := some "d", kw := [] }
+
 def renameDb : DB := fun k =>
   if k = (none, "t") then
     some { cols := fun n => if n = "c" then some ⟨"c", "INTEGER", true, none, none⟩ else none,
            idxs := fun _ => none, cons := fun _ => none, comment := none, extra := "" }
   else none
 
-theorem undo_counterexample :
-    ¬ (∀ (o : Op) (db db' : DB), apply o db = some db' → accurate o db →
-        ∃ r, o.reverse = some r ∧ apply r db' = some db) := by
-  intro h
-  have happ : ∃ db', apply renameWitness renameDb = some db' := by
-    simp [renameWitness, apply, onTable, renameDb]
-  obtain ⟨db', hdb'⟩ := happ
-  have hacc : accurate renameWitness renameDb := by
-    refine ⟨_, ⟨"c", "INTEGER", true, none, none⟩, by simp [renameWitness, renameDb]; rfl, by simp [renameWitness], ?_⟩
-    simp [renameWitness]
-  obtain ⟨r, hr, ha⟩ := h renameWitness renameDb db' hdb' hacc
-  simp [renameWitness, Op.reverse, Alter.reverse] at hr
-  subst hr
-  simp [renameWitness, apply, onTable, renameDb] at hdb'
-  subst hdb'
-  simp [apply, onTable, upd] at ha
+example : (∃ db', apply renameWitness renameDb = some db') ∧ accurate renameWitness renameDb := by
+  refine ⟨by simp [renameWitness, apply, onTable, renameDb], ?_⟩
+  refine ⟨_, ⟨"c", "INTEGER", true, none, none⟩, by simp [renameWitness, renameDb]; rfl, by simp [renameWitness], ?_⟩
+  simp [renameWitness]
 
 /-! ### whole upgrade lists (flattened: `ModifyTableOps` only groups ops) -/
 
@@ -562,10 +547,9 @@ theorem applyAll_append (a b : List Op) (db : DB) :
     cases apply o db <;> simp [ih]
 
 /-- **The downgrade undoes the upgrade** on the abstract semantics: for every list of leaf ops
-(no renames) that executes from `db` to `db'` with accurate stored reverses, `reverse_into`
+(renames included) that executes from `db` to `db'` with accurate stored reverses, `reverse_into`
 succeeds and executing its result from `db'` gives back exactly `db`. -/
 theorem undo_all_partial (ops : List Op) (db db' : DB)
-    (hn : ∀ o ∈ ops, ∀ a, o = .alterColumn a → a.modifyName = none)
     (happ : applyAll ops db = some db') (hacc : accurateAll ops db) :
     ∃ ds, reverseInto ops = some ds ∧ applyAll ds db' = some db := by
   induction ops generalizing db with
@@ -579,8 +563,8 @@ theorem undo_all_partial (ops : List Op) (db db' : DB)
     | none => simp [h1] at happ
     | some db1 =>
       simp [h1] at happ
-      obtain ⟨r, hr, hback⟩ := undo_leaf_partial o db db1 (hn o (by simp)) h1 hacc.1
-      obtain ⟨ds, hds, hback2⟩ := ih db1 (fun o' ho' => hn o' (by simp [ho'])) happ (hacc.2 db1 h1)
+      obtain ⟨r, hr, hback⟩ := undo_leaf_partial o db db1 h1 hacc.1
+      obtain ⟨ds, hds, hback2⟩ := ih db1 happ (hacc.2 db1 h1)
       unfold reverseInto at hds ⊢
       cases hre : reverseEach rest with
       | none => simp [hre] at hds
